@@ -18,8 +18,20 @@ func c07(r *Report) propMeta {
 	r.CondCount("lock-is-unconditional", lv, 2) // the range loop header + the error check; nothing that could skip the lock
 	r.Count("lock-always-attempted", lv, []Effect{CallEff("RestakeKeeper.SetLockedPower")}, "all", 1, 1)
 	r.Gate("each-power-positive", "x/feeds/types.Signal.Validate", RetOK(), []Cond{{Op: "LSS", A: []string{"const:0"}, B: []string{"field:Signal.Power"}, Want: true, Desc: "signal.Power > 0"}}, GateOpts{FailIsError: true})
-	r.Gate("signals-validated", "x/feeds/types.MsgVote.ValidateBasic", RetOK(), []Cond{nilErrOf("Signal.Validate"),
-		{Op: "BOOL", A: []string{"lookup", "field:Signal.ID"}, Want: false, Desc: "no duplicate signal id"}}, GateOpts{LoopAll: true, FailIsError: true})
+	r.Gate("signals-validated", "x/feeds/types.MsgVote.ValidateBasic", RetOK(), []Cond{nilErrOf("Signal.Validate")}, GateOpts{LoopAll: true, FailIsError: true})
+	// repeated signal ids in one vote: either they are refused statelessly, or the per-signal power diff ACCUMULATES
+	// (+= / -=) so that repeated ids are handled correctly; each alone keeps totals = sum of standing votes (seed C07-8
+	// gave up both)
+	upd := fK + "UpdateVoteAndReturnPowerDiff"
+	r.AnyOf("repeated-signal-ids-harmless", "MsgVote.ValidateBasic refuses a repeated signal id, OR UpdateVoteAndReturnPowerDiff accumulates the diff per id with += and -=", map[string]func(*Report){
+		"no-duplicate-ids": func(s *Report) {
+			s.Gate("no-duplicate-signal-id", "x/feeds/types.MsgVote.ValidateBasic", RetOK(), []Cond{{Op: "BOOL", A: []string{"lookup", "field:Signal.ID"}, Want: false, Desc: "no duplicate signal id"}}, GateOpts{LoopAll: true, FailIsError: true})
+		},
+		"diff-accumulates": func(s *Report) {
+			s.Exists("diff-subtracts-accumulating", upd, MapUpdEff("^mapupdate", "binop:-", "lookup", "field:Signal.Power", "call:Keeper.GetVote"), 1)
+			s.Exists("diff-adds-accumulating", upd, MapUpdEff("^mapupdate", "binop:+", "lookup", "field:Signal.Power", "param:signals"), 1)
+		},
+	})
 
 	r.Rule("C07.R2", "E3 the vote is written only after the lock succeeded")
 	r.Gate("vote-after-lock", vote, CallEff("Keeper.UpdateVoteAndReturnPowerDiff"), []Cond{nilErrOf("Keeper.LockVoterPower"),
@@ -48,7 +60,7 @@ func c07(r *Report) propMeta {
 	r.Gate("no-negative-total", vote, CallEff("Keeper.SetSignalTotalPower"), []Cond{{Op: "LSS", A: []string{"field:Signal.Power"}, B: []string{"const:0"}, Want: false, Desc: "not (total power < 0)"}}, GateOpts{FailIsError: true})
 	r.Exists("total-is-old-plus-diff", vote, StoreEff("Signal.Power", "^binop:+", "lookup", "call:Keeper.UpdateVoteAndReturnPowerDiff", "field:Signal.Power"), 1)
 	r.ArgHas("total-of-that-signal", vote, "Keeper.SetSignalTotalPower", 1, 1, "call:Keeper.GetSignalTotalPower")
-	r.Exists("diff-subtracts-old-vote", up, MapUpdEff("^mapupdate", "binop:-", "field:Signal.Power", "call:Keeper.GetVote"), 1)
+	r.Exists("diff-subtracts-old-vote", up, MapUpdEff("^mapupdate", "binop:-|binop:neg", "field:Signal.Power", "call:Keeper.GetVote"), 1)
 	r.Exists("diff-adds-new-vote", up, MapUpdEff("^mapupdate", "binop:+", "field:Signal.Power", "param:signals"), 1)
 	r.Dominated("old-vote-read-before-overwrite", up, CallEff("Keeper.GetVote"), CallEff("Keeper.SetVote"))
 	r.ArgHas("stored-vote-is-new-signals", up, "types.NewVote", 1, 1, "^param:signals")
@@ -98,6 +110,9 @@ func c07(r *Report) propMeta {
 
 	r.Rule("C07.R6", "store-key agreement: every point read/delete addresses a written key family")
 	r.StoreKeyAgreement("store-keys", "feeds", 9, nil)
+
+	// the voter-power bound rests on restake's total-power computation and its unstake / undelegate guards
+	r.Include("C16", "C16.R2", "C16.R4", "C16.R8")
 
 	return propMeta{
 		Decided: []string{
